@@ -256,7 +256,7 @@ OWN = {
     "C13": {"gsrfs", "gstrs", "X:=", "B*="},
     "C14": {"queryspace", "total_needed:=", "pthread_create", "gstrf"},
     "C06": {"pivotgrowth", "gstrs", "gsrfs", "gscon", "langs", "X:=", "B*="},
-    "C08": {"A-store", "LUperm-store", "gstrf", "colorder", "gsequ", "laqgs"},
+    "C08": {"A-store", "LUperm-store", "gstrf", "colorder", "gsequ", "laqgs", "equed:="},
     "C17": {"StatAlloc", "StatFree", "destroy_AC", "destroy_AA_store", "free"},
 }
 
